@@ -138,6 +138,64 @@ pub fn c05(tier: Tier) -> Vec<Case> {
             }
         }
     }
+    // two memoized rules related by a simple override (same Rust type): A = ['c'] @:B, A = 'c' @:B 'c', ...
+    {
+        let inputs = memo_inputs(tier);
+        let roots = vec![
+            choice(vec![seq(vec![field("a", "A"), lit("x")]), seq(vec![field("b", "B"), lit("c")]), seq(vec![field("b", "B"), field("a", "A")]), field("a", "A")]),
+            choice(vec![seq(vec![field("b", "B"), lit("x")]), seq(vec![field("a", "A"), lit("x")]), star(choice(vec![field("a", "A"), field("b", "B")]))]),
+        ];
+        let a_bodies = vec![seq(vec![opt(lit("c")), over("B")]), seq(vec![lit("c"), over("B"), lit("c")]), seq(vec![not(lit("c")), over("B")]), choice(vec![seq(vec![lit("c"), over("B")]), over("B")])];
+        let b_bodies = vec![seq(vec![lit("b"), opt(lit("b"))]), choice(vec![seq(vec![lit("c"), lit("b")]), lit("b")])];
+        for r in &roots {
+            for ab in &a_bodies {
+                for bb in &b_bodies {
+                    for bkind in [Directive::String, Directive::Position] {
+                        let g = Grammar {
+                            rules: vec![
+                                Rule::normal("Root", vec![Directive::Export, Directive::NoSkipWs, Directive::Position], r.clone()),
+                                Rule::normal("A", vec![Directive::NoSkipWs], ab.clone()),
+                                Rule::normal("B", vec![Directive::NoSkipWs, bkind.clone()], bb.clone()),
+                            ],
+                        };
+                        if !wf::well_formed(&g) {
+                            continue;
+                        }
+                        let names = vec!["Root".to_string(), "A".to_string(), "B".to_string()];
+                        let grp = b.new_group();
+                        for (vi, mask) in subsets(3).into_iter().enumerate() {
+                            b.add_variant(grp, vi, "memo-subsets/alias", with_memo(&g, &names, mask), inputs.clone(), &format!("mask{mask}"));
+                        }
+                    }
+                }
+            }
+        }
+    }
+    // long inputs: cache keys and offsets beyond 8 and 16 bits (short inputs first: histories use the first ones)
+    {
+        let mut inputs: Vec<String> = vec!["bx".into(), "bcx".into(), "bbc".into(), "cx".into()];
+        for n in super::e1::long_counts(tier) {
+            inputs.push("bx".repeat(n));
+            inputs.push(format!("{}c", "bbx".repeat(n)));
+            inputs.push(format!("{}b", "cbx".repeat(n)));
+        }
+        let spec = InputSpec::List(inputs);
+        let a_body = choice(vec![seq(vec![field("b", "B"), lit("c")]), field("b", "B")]);
+        let b_body = choice(vec![seq(vec![lit("b"), lit("b")]), lit("b"), seq(vec![lit("c"), lit("b")])]);
+        let root = seq(vec![star(choice(vec![seq(vec![field("a", "A"), lit("y")]), seq(vec![field("a", "A"), lit("x")]), seq(vec![field("b", "B"), lit("x")])])), opt(field("t", "A"))]);
+        let g = Grammar {
+            rules: vec![
+                Rule::normal("Root", vec![Directive::Export, Directive::NoSkipWs, Directive::Position], root),
+                Rule::normal("A", vec![Directive::NoSkipWs, Directive::Position], a_body),
+                Rule::normal("B", vec![Directive::NoSkipWs, Directive::String], b_body),
+            ],
+        };
+        let names = vec!["Root".to_string(), "A".to_string(), "B".to_string()];
+        let grp = b.new_group();
+        for (vi, mask) in subsets(3).into_iter().enumerate() {
+            b.add_variant(grp, vi, "memo-subsets/long-inputs", with_memo(&g, &names, mask), spec.clone(), &format!("mask{mask}"));
+        }
+    }
     let inputs = memo_inputs_ws(tier);
     for (g, names) in memo_bases_mixed_skip(tier) {
         let grp = b.new_group();
@@ -213,6 +271,27 @@ pub fn c06(tier: Tier) -> Vec<Case> {
     let mut b = Builder::new();
     for g in leftrec_memo_bases() {
         b.add("memo-probes/with-leftrec", with_probes(&g), InputSpec::Strings { alphabet: vec!['n', '+', '!', '('], max_len: if tier == Tier::Quick { 4 } else { 5 } });
+    }
+    // many distinct positions in one parse, then backtracking over all of them
+    {
+        let mut inputs: Vec<String> = Vec::new();
+        for n in [1usize, 2, 255, 256, 257, 4095, 4096, 4097, 5000] {
+            inputs.push(format!("{}x", "b".repeat(n)));
+            inputs.push(format!("{}c", "b".repeat(n)));
+        }
+        if tier == Tier::Thorough {
+            for n in [65535usize, 65536, 65537, 70000] {
+                inputs.push(format!("{}x", "b".repeat(n)));
+            }
+        }
+        let g = Grammar {
+            rules: vec![
+                Rule::normal("Root", vec![Directive::Export, Directive::NoSkipWs], choice(vec![seq(vec![field("i", "Items"), lit("c"), Expr::Eoi]), seq(vec![field("i", "Items"), lit("x"), Expr::Eoi])])),
+                Rule::normal("Items", vec![Directive::NoSkipWs], star(field("i", "Item"))),
+                Rule::normal("Item", vec![Directive::NoSkipWs, Directive::Memoize], lit("b")),
+            ],
+        };
+        b.add("memo-probes/long-inputs", with_probes(&g), InputSpec::List(inputs));
     }
     let inputs = memo_inputs(tier);
     for (g, names) in memo_bases(tier) {
@@ -313,6 +392,36 @@ pub fn c07(tier: Tier) -> Vec<Case> {
             }
         }
     }
+    // (a') base alternatives before, between and after the recursive one; bases that recurse at a later position
+    {
+        let inputs = InputSpec::Strings { alphabet: vec!['n', '+', '-', '(', ')'], max_len: if tier == Tier::Quick { 6 } else { 7 } };
+        let neg = seq(vec![lit("-"), field("m", "N")]);
+        let paren = seq(vec![lit("("), bfield("e", "A"), lit(")")]);
+        let recp = seq(vec![bfield("l", "A"), lit("+"), field("r", "N")]);
+        let num = field("n", "N");
+        let orders: Vec<Vec<Expr>> = vec![
+            vec![neg.clone(), recp.clone(), paren.clone(), num.clone()],
+            vec![recp.clone(), neg.clone(), paren.clone(), num.clone()],
+            vec![paren.clone(), recp.clone(), num.clone()],
+            vec![neg.clone(), paren.clone(), num.clone(), recp.clone()],
+            vec![recp.clone(), paren.clone(), num.clone()],
+        ];
+        for arms in orders {
+            let recursive_first = matches!(&arms[0], Expr::Seq(v) if matches!(&v[0], Expr::Ref { rule, .. } if rule == "A"));
+            for root in [field("a", "A"), seq(vec![field("a", "A"), Expr::Eoi])] {
+                let g = Grammar {
+                    rules: vec![
+                        Rule::normal("Root", vec![Directive::Export, Directive::Position, Directive::NoSkipWs], root),
+                        Rule::normal("A", vec![Directive::Leftrec, Directive::Position, Directive::NoSkipWs], choice(arms.clone())),
+                        n_rule(),
+                    ],
+                };
+                if wf::well_formed(&g) && b.add("leftrec/mixed-order", g, inputs.clone()) {
+                    b.last().note = if recursive_first { "recursive-first".into() } else { "mixed-order".into() };
+                }
+            }
+        }
+    }
     // (c) indirect recursion through a non-memoized rule
     let inputs_c = InputSpec::Strings { alphabet: vec!['n', '+', '!'], max_len: len };
     for b_body in [
@@ -394,6 +503,31 @@ pub fn c10(tier: Tier) -> Vec<Case> {
             let g = root_grammar(dirs(noskip, &[Directive::Export, Directive::Position]), e.clone(), &leaves);
             if wf::well_formed(&g) {
                 b.add(if noskip { "errors/no_skip_ws" } else { "errors/skip" }, g, inputs.clone());
+            }
+        }
+    }
+    // (1b) a deeper failure left behind by backtracking, then a successful match that ends before it, then failure
+    {
+        let inputs = InputSpec::Strings { alphabet: vec!['a', 'b', 'c', ' '], max_len: len };
+        let backtrackers = vec![
+            opt(seq(vec![lit("b"), lit("b"), lit("c")])),
+            star(seq(vec![lit("b"), lit("c")])),
+            choice(vec![seq(vec![lit("b"), lit("b"), lit("c")]), lit("")]),
+            opt(seq(vec![rref("X"), rref("X"), lit("a")])),
+            not(seq(vec![lit("b"), lit("b"), lit("b")])),
+        ];
+        let middles = vec![field("t", "T"), field("k", "K"), rref("D"), field("f", "X"), lit("b"), rref("char"), range('b', 'c'), ilit("B")];
+        let tails = vec![lit("c"), Expr::Eoi, lit("a"), seq(vec![lit("b"), lit("a")])];
+        for bt in &backtrackers {
+            for m in &middles {
+                for t in &tails {
+                    for noskip in [false, true] {
+                        let g = root_grammar(dirs(noskip, &[Directive::Export, Directive::Position]), seq(vec![bt.clone(), m.clone(), t.clone()]), &leaves);
+                        if wf::well_formed(&g) {
+                            b.add("errors/match-after-backtrack", g, inputs.clone());
+                        }
+                    }
+                }
             }
         }
     }
